@@ -668,12 +668,29 @@ fn large_graph(shape: u64) -> [Option<u8>; 256] {
             12 => if c < 128 { Some((c + 128) as u8) } else { Some((c - 128 + 1).min(127) as u8) }, // crossing the 7-bit boundary both ways
             13 => if c == 255 { Some(255) } else if c >= 250 { Some((c + 1) as u8) } else { None }, // short chain into a self-loop at 255
             14 => if c == 0 { Some(0) } else if c <= 5 { Some((c - 1) as u8) } else { None },       // short chain into a self-loop at 0
-            _ => if c % 3 == 0 { Some(((c + 3) % 256) as u8) } else { Some((c - c % 3) as u8) },    // a cycle of 86 with two leaves on every member
+            15 => if c % 3 == 0 { Some(((c + 3) % 256) as u8) } else { Some((c - c % 3) as u8) },   // a cycle of 86 with two leaves on every member
+            // every character, the hub included, names the same hub: in-degree 256 (255 others + the self-loop)
+            16 => Some(0),
+            17 => Some(127),
+            18 => Some(128),
+            19 => Some(255),
+            // two hubs with 128 incoming links each, linked to each other
+            20 => if c == 0 { Some(255) } else if c == 255 { Some(0) } else if c % 2 == 0 { Some(0) } else { Some(255) },
+            21 => if c == 127 { Some(128) } else if c == 128 { Some(127) } else if c < 127 || c == 255 { Some(127) } else { Some(128) },
+            // hub 200 with in-degree exactly 127, 128, 129, 254, 255 (the first k other characters) and 256 (all, with the self-loop)
+            22..=27 => {
+                let k = [127usize, 128, 129, 254, 255, 256][(shape - 22) as usize];
+                let rank = if c < 200 { c } else { c - 1 }; // position among the characters other than 200
+                if c == 200 { if k == 256 { Some(200) } else { None } } else if rank < k.min(255) { Some(200) } else { None }
+            }
+            // hub with a self-loop and in-degree 255 / 2 (the self-loop plus 254 / 1 others)
+            28 => if c == 1 { None } else { Some(0) },
+            _ => if c <= 1 { Some(0) } else { None },
         };
     }
     g
 }
-const LARGE_GRAPHS: u64 = 16;
+const LARGE_GRAPHS: u64 = 30;
 
 fn check_next_larger_large(idx: u64, shape: u64, mask: u64, drop: bool, reversed: bool, acc: &mut Acc) {
     acc.eval();
@@ -694,6 +711,16 @@ fn check_next_larger_large(idx: u64, shape: u64, mask: u64, drop: bool, reversed
     let mut edges: Vec<(Char, Char)> = (0..=255u8).filter_map(|c| link[c as usize].map(|n| (Char(c), Char(n)))).collect();
     if reversed {
         edges.reverse();
+    }
+    let mut indeg = [0usize; 256];
+    for n in link.iter().flatten() {
+        indeg[*n as usize] += 1;
+    }
+    match indeg.iter().max() {
+        Some(256) => acc.count("nl_character_with_256_incoming_links"),
+        Some(255) => acc.count("nl_character_with_255_incoming_links"),
+        Some(128) => acc.count("nl_character_with_128_incoming_links"),
+        _ => {}
     }
     let (g, _mw) = fix::next_larger(&link, &exists, drop);
     let want: Vec<Vec<u8>> = (0..=255u8).map(|c| fix::chain(&g, c)).collect();
@@ -1081,7 +1108,7 @@ fn main() {
             });
         }
     }
-    ctx.family("nextlarger-256", &format!("{LARGE_GRAPHS} deterministic graphs on all 256 characters (chains and cycles of 256 in both directions, star, binary trees, permutation cycles, rho shapes, interleaved chains, 7-bit boundary crossings, self-loops at 0 and 255) x 3 existence masks x drop/keep x edge order"), LARGE_GRAPHS * 3 * 2 * 2, |i, acc| {
+    ctx.family("nextlarger-256", &format!("{LARGE_GRAPHS} deterministic graphs on all 256 characters (chains and cycles of 256 in both directions, stars with and without a self-loop on the hub (in-degrees 127, 128, 129, 254, 255, 256), two mutually linked hubs, binary trees, permutation cycles, rho shapes, interleaved chains, 7-bit boundary crossings, self-loops at 0 and 255) x 3 existence masks x drop/keep x edge order"), LARGE_GRAPHS * 3 * 2 * 2, |i, acc| {
         let d = vcore::digits(i, &[LARGE_GRAPHS, 3, 2, 2]);
         check_next_larger_large(i, d[0], d[1], d[2] == 1, d[3] == 1, acc);
     });
@@ -1091,6 +1118,9 @@ fn main() {
     ctx.require("compress_empty_input", "compress of no values");
     ctx.require("compress_255_distinct_at_limit_254_255", "exactly 255 distinct values with limit 254 or 255 (largest 8-bit index)");
     ctx.require("compress_256_distinct_at_limit_255", "exactly 256 distinct values with limit 255");
+    ctx.require("nl_character_with_256_incoming_links", "every character, the hub included, names the same next-larger character (in-degree 256)");
+    ctx.require("nl_character_with_255_incoming_links", "a character with exactly 255 incoming next-larger links");
+    ctx.require("nl_character_with_128_incoming_links", "a character with exactly 128 incoming next-larger links");
     ctx.require("nl_256_characters", "a next-larger graph on all 256 characters");
     ctx.require("nl_chain_of_200_or_more", "a next-larger chain of 200 or more characters");
     ctx.require("seven_digit_fraction", "a fix_word whose text needs a 7th fraction digit (the only texts that reach the rounding branch `delta > 2^20` of TFtoPL §42)");
